@@ -180,8 +180,11 @@ def concat_cases(tier):
                 yield 'concatenation', '(' + '\n'.join(t) + ')'
 
 
-def number_strings(n, shard):
-    for t, l in X.shard_strings(NUM_SIGMA, n, shard):
+NUM_CORE = ['0', '1', '7', '_', '.', 'e', '+', 'j', 'x', 'b']
+
+
+def number_strings(n, shard, sigma=None):
+    for t, l in X.shard_strings(sigma or NUM_SIGMA, n, shard):
         if t:
             yield 'number-shape', t
 
@@ -246,7 +249,7 @@ def run_shard(args):
     kind = args[0]
     tier = args[1]
     if kind == 'numbers':
-        cases = list(number_strings(args[2], args[3]))
+        cases = list(number_strings(args[2], args[3], args[4] if len(args) > 4 else None))
     elif kind == 'list':
         cases = args[2]
     r = C.Result()
@@ -276,6 +279,8 @@ def run(tier, seed):
             jobs.append(('list', tier, ch))
     n = 5 if tier == 'quick' else 6
     jobs += [('numbers', tier, n, s) for s in X.prefix_shards(NUM_SIGMA, n, 2)]
+    if tier != 'quick':
+        jobs += [('numbers', tier, n + 1, s, NUM_CORE) for s in X.prefix_shards(NUM_CORE, n + 1, 2)]
     total = C.Result()
     allh = set()
     for r in C.pmap(run_shard, jobs):
@@ -287,7 +292,7 @@ def run(tier, seed):
     rule = ('escapes: \\c for all 128 ASCII c and 12 non-ASCII x %d prefix spellings x 4 quote styles; all \\xHH (+ malformed); all octal escapes 0..0o777 in 1/2/3-digit spellings x 5 followers; '
             'all 65536 \\uXXXX; \\U at plane boundaries/surrogates/limits; \\N{name} for %s character name known to unicodedata (+ aliases, malformed forms); backslash-newline x LF/CRLF/CR; raw-quote rule; '
             'every prefix string of <=3 letters over rbufRBUF; every triple-quoted body of length<=%d over {a, LF, CR, backslash}; all pairs/triples of 13 literal kinds (incl. short octal escapes at the seam); every string of length<=%d over the '
-            'number alphabet %r; integers 2^k, 2^k+-1 (k<=4096) and 10^k+-1 in four bases with underscores; floats m*10^e and the exact midpoints of adjacent doubles at binade boundaries; '
+            'number alphabet %r (thorough tier: also length 7 over the 10-symbol core 017_.e+jxb); integers 2^k, 2^k+-1 (k<=4096) and 10^k+-1 in four bases with underscores; floats m*10^e and the exact midpoints of adjacent doubles at binade boundaries; '
             'states = distinct literals; non-trivial = literals CPython accepts whose value was compared'
             % (len(KINDS), 'every' if tier == 'thorough' else 'every 7th', 5 if tier == 'thorough' else 4, n, ''.join(NUM_SIGMA)))
     return C.finish(PROP, tier, seed, t0, total, rule,
